@@ -243,7 +243,9 @@ def gen_computer(r, rate=None, si=False):
                     scaling_function="mel")
         return {"name": "si", "bank": bank, "frame_shift_ms": r.choice([5, 10]), "use_log": r.random() < 0.7,
                 "use_power": r.random() < 0.5}
-    L_ms, S_ms = r.choice([(25, 10), (20, 10), (10, 5), (12.5, 5), (5.125, 2), (8, 8), (6.25, 3.125), (25, 10)])
+    # all four parities of (frame length, frame shift) in samples occur (8 kHz: 200/80, 41/16, 50/25, 80/25, 41/9)
+    L_ms, S_ms = r.choice([(25, 10), (20, 10), (10, 5), (12.5, 5), (5.125, 2), (8, 8), (6.25, 3.125), (25, 10),
+                           (10, 3.125), (5.125, 1.125), (10, 3.125)])
     cfg = {"name": "stft", "bank": bank, "frame_length_ms": L_ms, "frame_shift_ms": S_ms,
            "use_log": r.random() < 0.7, "use_power": r.random() < 0.5}
     u = r.random()
@@ -1707,7 +1709,7 @@ def check_plans(ctx, I, n):
     rows, cases = [], []
     cfgs = []
     for style, kaldi in (("causal", False), ("centered", False), ("centered", True)):
-        for (Lms, Sms) in ((25, 10), (5, 1), (5.125, 2), (3, 3), (2.5, 0.5)):
+        for (Lms, Sms) in ((25, 10), (5, 1), (5.125, 2), (3, 3), (2.5, 0.5), (5, 1.125), (5.125, 1.125)):  # all parities of (L, S)
             cfgs.append((style, kaldi, Lms, Sms))
     per = max(8, n // len(cfgs))
     for (style, kaldi, Lms, Sms) in cfgs:
